@@ -51,6 +51,8 @@ def run_impl(case, outcome):
     class Rec(Client):
         def message_from_device(self, msg):
             published.append(msg)
+            if case.get("deaf"):
+                raise RuntimeError("the link to this client is down")      # delivery fails: the publishing operation raises
 
     router = Router()
     router.register_client(Rec())
@@ -127,6 +129,16 @@ def run_impl(case, outcome):
         if exc:
             outcome.count("raised:" + exc)
         bad = [s for s in snaps if isinstance(s, str)]
+        if case.get("deaf"):
+            # every publication fails half-way (the exception leaves the operation): whatever state the property is left in
+            # still has to satisfy its rule
+            non, nbefore = sum(1 for x in after if x), sum(1 for x in before if x)
+            ok = True if rule == "AnyOfMany" else (non <= 1 and (rule != "OneOfMany" or nbefore != 1 or non == 1))
+            qs.append(Query("spec istrue %s" % enc_bool(ok), "True", "oracle",
+                            "after an operation whose publication raised, the %s property is left as %s (was %s)" % (rule, bits(after), bits(before))))
+            outcome.nontrivial.add((rule, bits(before), enc_op(op), "deaf"))
+            before = after
+            continue
         step = (",".join(bits(s) for s in snaps if not isinstance(s, str)) + ">" + bits(after)
                 + ("!" + exc if exc else "") + ("".join("!" + b for b in bad)))
         steps.append(step)
@@ -157,7 +169,7 @@ def run_impl(case, outcome):
         outcome.nontrivial.add((rule, bits(before), enc_op(op)))
         before = after
     line = "%s %s %d %s" % (rule, bits(init), len(case["ops"]), " ".join(enc_op(o) for o in case["ops"]))
-    if not case.get("veto") and not case.get("hidden"):
+    if not case.get("veto") and not case.get("hidden") and not case.get("deaf"):
         qs.insert(0, Query("sw run " + line, " | ".join(steps), "corr"))
     return qs
 
@@ -235,3 +247,13 @@ def gen_cases(rng, tier):
                 for hidden in ([0], [n - 1]):
                     for op in ([["A", i, True] for i in range(n)] + [["W", [[i, True]]] for i in range(n)] + [["S", [i]] for i in range(n)]):
                         yield {"op": "sw", "rule": rule, "init": list(init), "ops": [op, ["A", (op[1] if op[0] == "A" else 0), True]][:1], "hidden": hidden}
+    # (5) every publication fails (the client endpoint raises while the update is delivered): the rule must survive the exception
+    for rule in RULES:
+        for n in (1, 2, 3):
+            for init in itertools.product((False, True), repeat=n):
+                if rule != "AnyOfMany" and sum(init) > 1:
+                    continue
+                for op in all_single_ops(n):
+                    if op[0] == "S" and any(i >= n for i in op[1]):
+                        continue
+                    yield {"op": "sw", "rule": rule, "init": list(init), "ops": [op], "deaf": True}
